@@ -27,7 +27,7 @@ CONSTANTS MaxSeg,     \* segments per file
 
 Kinds == {"zlib", "gzip", "zip", "idat"}
 FakeWhy == [zlib |-> {"block"}, gzip |-> {"method", "fextra-past-eof", "name-past-eof", "comment-past-eof", "block"},
-            zip |-> {"signature", "method", "extra-past-eof", "block"},
+            zip |-> {"signature", "method", "extra-past-eof", "block", "bare"},
             idat |-> {"crc", "short", "nolength", "truncated"}]
 
 Junk(n)      == [c |-> "junk", k |-> "none", why |-> "none", big |-> FALSE, n |-> n]
